@@ -201,7 +201,7 @@ def r2_queries(repo, rep):
   cls = repo.cls(MM)
   n_q = 0
   for f in cls.all_functions():
-    if f.name in SEARCHES or f.name == '__init__':
+    if f.name in SEARCHES or f.name == '__init__' or repo.inlined_away(f):
       continue
     n_q += 1
     funcs = [f] + list(f.nested.values())
@@ -243,6 +243,8 @@ def r2_queries(repo, rep):
   # the data object: writers are __init__ and the geo_index setter only
   dcls = repo.cls('tbrmmdata.TBRMMData')
   for f in dcls.all_functions():
+    if repo.inlined_away(f):
+      continue          # a helper of the constructor / setter: its writes are examined where they were inlined
     g2, rd2, effs = function_effects(f)
     for e, recv, c in effs:
       if c != 'self':
